@@ -128,6 +128,15 @@ def classify(out, verdicts, byid):
             known_ast.append((sig["ast"], sig))
     for v in verdicts:
         rec = byid[v["id"]]
+        if "drift" in v:
+            out.drift += 1
+            ex = out.extra.setdefault("drift_examples", [])
+            if len(ex) < 8:
+                ex.append({"text": rec["s"], "what": v["drift"], "parser": rec["pp"]})
+            continue
+        if "oracle" in v:
+            out.extra.setdefault("oracle_mismatches", []).append({"text": rec["s"], "what": v["oracle"]})
+            continue
         for side in ("p", "a"):
             vv = v[side]
             if vv["v"] == "OK":
@@ -159,6 +168,10 @@ def judge(out, recs, wd):
     out.traces += len(recs)
     (wd / "verdicts.json").write_text(json.dumps(verdicts))
     classify(out, verdicts, {r["id"]: r for r in recs})
+    om = out.extra.get("oracle_mismatches", [])
+    if om:
+        # the reference grammar (M-layer) disagrees with CPython: the oracle is wrong, not pymbolic
+        raise kit.MachineryError(f"C07 reference grammar rejected by CPython on {len(om)} strings, e.g. {om[:3]}")
 
 
 def run(tier, seed, out):
@@ -169,6 +182,7 @@ def run(tier, seed, out):
     printed = gen.printed()
     envs = [p["envs"] for p in printed if "envs" in p]
     cases = [p for p in printed if "toks" in p]
+    out.extra["design_level_failures_on_model"] = sum(1 for p in printed if "design" in p)
     seen, uniq = set(), []
     for c in cases:
         k = (tuple(c["toks"]), c["garbled"])
